@@ -134,7 +134,9 @@ CHECKS.update({
         " unitarity/symmetry invariants",
         "Each case evaluates a formulated T-matrix (non-relativistic and relativistic, 1-3 channels, 1-4 poles, L 0-4,"
         " three phase-space factors) on a batch of 64 (512) generated points incl. near-threshold, near-pole, wide-scale"
-        " and degenerate regimes and checks ||S^dagger S - 1|| and ||T - T^T|| with condition-scaled tolerances.",
+        " and degenerate regimes and checks ||S^dagger S - 1|| and ||T - T^T|| with condition-scaled tolerances; one case"
+        " in five is a call history over the four parametrize/return_t_hat flag combinations (memo kept or cleared),"
+        " asserting the same invariants for T, for sqrt(rho)^* T-hat sqrt(rho) and their agreement (DESIGN.md §17).",
         "Trusts numpy linear algebra and the independent pole-parametrisation reference used only for the condition"
         " estimate (vp/ref/kmat.py).",
         "DESIGN.md §4 C09",
